@@ -107,12 +107,18 @@ func q17GenesisBuild() []*explore.Action {
 		CreateBatch(A2, "C02-001", date(2020, 1, 1), date(2021, 1, 1), true, nil, Iss(B, "6", "0"), Iss(C, "1", "0"), Iss(D, "2", "0")),
 		CreateBatch(B, "C03-001", date(2020, 1, 1), date(2021, 1, 1), true, nil, Iss(C, "3", "0")),
 		CreateBatch(A, "C04-001", date(2020, 1, 1), date(2021, 1, 1), true, nil, Iss(B, "2", "0")),
+		// dates whose encoding is all zeros (the Unix epoch) or negative
+		CreateBatch(A, "C04-001", time.Unix(0, 0).UTC(), date(1971, 1, 1), true, nil, Iss(B, "2", "0")),
+		CreateBatch(A, "C04-001", date(1969, 7, 20), time.Unix(0, 0).UTC(), true, nil, Iss(C, "1", "0")),
 		Msg("seed:add-class-creator B", &basetypes.MsgAddClassCreator{Authority: G.String(), Creator: b}),
 		Msg("seed:basket NCT", &baskettypes.MsgCreate{Curator: a, Name: "NCT", DisableAutoRetire: true, CreditTypeAbbrev: "C", AllowedClasses: []string{"C01", "C02"}, Fee: sdk.NewCoins(coin("uregen", 10))}),
 		Msg("seed:basket RCT", &baskettypes.MsgCreate{Curator: b, Name: "RCT", DisableAutoRetire: true, CreditTypeAbbrev: "C", AllowedClasses: []string{"C01"}, Fee: sdk.NewCoins(coin("uregen", 10))}),
 		// a basket WITH date criteria, listed before the criteria-less baskets created during the exploration
 		Msg("seed:basket ACT", &baskettypes.MsgCreate{Curator: a, Name: "ACT", DisableAutoRetire: true, CreditTypeAbbrev: "C", AllowedClasses: []string{"C01"},
 			DateCriteria: &baskettypes.DateCriteria{MinStartDate: gts(date(2019, 6, 1))}, Fee: sdk.NewCoins(coin("uregen", 10))}),
+		Msg("seed:basket EPO", &baskettypes.MsgCreate{Curator: b, Name: "EPO", DisableAutoRetire: true, CreditTypeAbbrev: "C", AllowedClasses: []string{"C04"},
+			DateCriteria: &baskettypes.DateCriteria{MinStartDate: gts(time.Unix(0, 0).UTC())}, Fee: sdk.NewCoins(coin("uregen", 10))}),
+		Put(B, "eco.uC.EPO", BC("C04-001-19700101-19710101-002", "1")),
 		Put(B, NCT, BC("C01-001-20200101-20210101-001", "2")),
 		Put(B, NCT, BC("C02-001-20200101-20210101-001", "1")),
 		Put(C, RCT, BC("C01-002-20200101-20210101-001", "1")),
